@@ -367,7 +367,9 @@ var intPool = []int64{0, 1, -1, 9, 10, 42, -42, 255, 65536, 1 << 31, -(1 << 31),
 
 var floatPool = []float64{0, 1, -1, 0.5, 1.5, -2.25, 0.1, 1e6, 1e21, 1e-7, 1.5e-7, 123456789.125, 1e100, 1e-100, 1.7976931348623157e308,
 	5e-324, 2.2250738585072014e-308, 9007199254740993, 1e22, 1e23, 0.30000000000000004, 3.141592653589793, 123456789012345680000, 1e15, 1e16, -1e-5,
-	0.000001, 0.0000001, 100000, 1e20, 9223372036854775807, 9223372036854775808}
+	0.000001, 0.0000001, 100000, 1e20, 9223372036854775807, 9223372036854775808,
+	// F-form with 19 and more fraction digits (the accumulator of gen.Number goes over to its text form), the ends of the F-form range
+	0.00012345678901234567, 0.0001, 0.00009999, 123456.7, 999999.9999999999, 1234567.8, 0.012345678901234567, 1.2345678901234567}
 
 func (g *treeGen) num() any {
 	switch g.r.Intn(6) {
